@@ -74,10 +74,11 @@ class SqParser:
         if ast is not None:
             state = VMState(names=scoped_names, max_ops_evaluated=max_ops_evaluated)
 
-            if ast_names is not None:
-                for k, v in ast_names.items():
-                    scoped_names[k] = v.eval(state)
+            with state.activate():
+                if ast_names is not None:
+                    for k, v in ast_names.items():
+                        scoped_names[k] = v.eval(state)
 
-            return ast.eval(state)
+                return ast.eval(state)
         else:
             return None
